@@ -1,6 +1,7 @@
 (* C05 - Bravyi-Kitaev family transforms are valid encodings equivalent to JW. *)
 From Coq Require Import ZArith NArith List Bool.
-From OFV Require Import Base.Cplx Model.QubitOp Model.BravyiKitaev Check.Encoding Thm.C05.BKB Thm.C05.Sets.
+From OFV Require Import Base.Cplx Base.Lin Sem.PauliSem Sem.FermiSem Model.QubitOp Model.LadderOp Model.BravyiKitaev Check.Encoding
+  Thm.C01.QubitHom Thm.C05.BKB Thm.C05.Sets Thm.C05.BKLinear.
 Import ListNotations.
 
 (* [B] every n_qubits <= 7: the modelled ladder images are the Fock ladder operators transported by a
@@ -16,3 +17,22 @@ Print Assumptions C05_bk_tree_encoding_valid_upto_7.
 Theorem C05_bk_sets_fenwick_upto_128 : forallb sets_ok_n (seq 1 128) = true.
 Proof. exact bk_sets_fenwick_upto_128. Qed.
 Print Assumptions C05_bk_sets_fenwick_upto_128.
+
+(* the linear-encoding theorem: for EVERY n and i for which the decidable side conditions bk_ok n i hold
+   (mask identities of the index sets w.r.t. the storage scheme F, exactness of the ladder's internal +),
+   the ladder image acts on EVERY encoded occupation state as the ladder operator acts on the state *)
+Theorem C05_bk_ladder_linear : forall n i act v, bk_ok n i = true ->
+  leq N.eqb (qden (bk_ladder (N.of_nat i, act) (Z.of_nat n)) (enc n v)) (emap n (fapply1 (N.of_nat i, act) v)).
+Proof. exact bk_ladder_den. Qed.
+Print Assumptions C05_bk_ladder_linear.
+(* ... hence, with the side conditions computed for all n_qubits <= 128: for EVERY FermionOperator on modes
+   < n and EVERY occupation state the (exactly accumulated) Bravyi-Kitaev image is the operator transported
+   by the basis encoding, which is injective on n-bit states (same spectrum as Jordan-Wigner) *)
+Theorem C05_bk_sound_upto_128 : forall n op v, (1 <= n <= 128)%nat -> modes_lt n op = true ->
+  leq N.eqb (qden (bk_gen Cis0 op (Z.of_nat n)) (enc n v)) (emap n (fden op v)).
+Proof. exact bk_sound_upto_128. Qed.
+Print Assumptions C05_bk_sound_upto_128.
+Theorem C05_bk_encoding_injective_upto_128 : forall n v v', (1 <= n <= 128)%nat ->
+  (v < 2 ^ N.of_nat n)%N -> (v' < 2 ^ N.of_nat n)%N -> enc n v = enc n v' -> v = v'.
+Proof. exact bk_encoding_injective_upto_128. Qed.
+Print Assumptions C05_bk_encoding_injective_upto_128.
